@@ -95,6 +95,25 @@ func (e *Engine) findPackage(from *types.Package, name string) *types.Package {
 				cands = append(cands, imp)
 			}
 		}
+		if len(cands) > 1 {
+			// two imports share the package name (one of them aliased in the source): the one imported WITHOUT an alias is
+			// the one the source calls by that name
+			if pk, ok := e.prog.All[from.Path()]; ok {
+				for _, f := range pk.Syntax {
+					for _, is := range f.Imports {
+						if is.Name != nil {
+							continue
+						}
+						path := strings.Trim(is.Path.Value, "\"")
+						for _, c := range cands {
+							if c.Path() == path {
+								return c
+							}
+						}
+					}
+				}
+			}
+		}
 		for _, c := range cands {
 			if strings.HasPrefix(c.Path(), repoModule) {
 				return c
